@@ -391,7 +391,8 @@ def teardown_owners(ctx, rule):
     ctx.rule(rule, 'the connection gives up its socket and its handshake state only in close(): no read or write wrapper does so on an error of the transport - '
              'a read that timed out at a frame boundary has consumed nothing, the caller simply reads again, and every frame the peer sends afterwards must still be delivered', floor=2)
     OWNED = ('edp_client::transport::FramedTransport::close', 'edp_client::state_machine::HandshakeStateMachine::disconnect')
-    OWNERS = ('edp_client::connection::Connection::close', 'edp_client::connection::Connection::disconnect', '<edp_client::connection::Connection as core::ops::Drop>::drop')
+    # (connect: giving up the socket of a handshake that failed concerns a connection that was never up)
+    OWNERS = ('edp_client::connection::Connection::close', 'edp_client::connection::Connection::disconnect', 'edp_client::connection::Connection::connect', '<edp_client::connection::Connection as core::ops::Drop>::drop')
     n = 0
     for q in sorted(ctx.F.bodies):
         if not q.startswith(('edp_client::connection::', '<edp_client::connection::')) or '::tests::' in q or ctx.F.bodies[q]['kind'] not in ('Fn', 'AssocFn', 'Closure'):
@@ -406,7 +407,7 @@ def teardown_owners(ctx, rule):
                     n += 1
                     short = '::'.join(nm.rsplit('::', 2)[1:])
                     if host in OWNERS:
-                        ctx.ok(rule, '%s<-%s' % (short, host.rsplit('::', 1)[1]), 'called from close', ctx.where(DB, bb))
+                        ctx.ok(rule, '%s<-%s' % (short, host.rsplit('::', 1)[1]), 'called from %s' % host.rsplit('::', 1)[1], ctx.where(DB, bb))
                     else:
                         ctx.bad(rule, '%s<-%s' % (short, host.rsplit('::', 1)[1]), '%s calls %s: a transport error (an idle timeout among them) now costs the socket and the connected state, '
                                 'and whatever the peer sends afterwards is never delivered' % (host.rsplit('::', 1)[1], short), ctx.where(DB, bb), key='WHO:%s:calls-%s' % (host, short))
